@@ -1065,6 +1065,17 @@ class Analyzer:
                               tuple((conv(c_), tuple((n, conv(v)) for n, v in vals)) for c_, vals in lp.breaks))
                 dict.__setitem__(s.loops, nl.lid, nl)
             repl[e["term"]] = conv(cs.ret)
+        # a new helper used as a *value* (passed to apply / map / sorted(key=..)) reads as the lambda with its body
+        for q2 in {x[1] for ev in out for v in ev.data.values() if isinstance(v, tuple) for x in walk(v) if x[0] == "glob"} | {x[1] for x in walk(s.ret) if x[0] == "glob"}:
+            if q2 in self.P.functions and q2 not in base and q2 != s.func.qualname and q2 not in self._splicing and self.P.functions[q2].parent is None and ("glob", q2) not in repl:
+                try:
+                    cs2 = self.summary(q2)
+                except AnalysisBroken:
+                    continue
+                if cs2.is_generator or dict.keys(cs2.loops) or self.P.functions[q2].cls:
+                    continue
+                lamid = ("#fn", q2)
+                repl[("glob", q2)] = ("lam", lamid, tuple(cs2.params), subst(cs2.ret, {("param", p[0]): ("lparam", lamid, p[0]) for p in cs2.params}))
         if not repl:
             return
 
